@@ -60,6 +60,25 @@ def hex! (j : Json) (k : String) : Askar.Bytes := (Askar.Bytes.ofHex (str! j k))
 
 def jhex (b : Askar.Bytes) : Json := .str (Askar.Bytes.toHex b)
 
+def hex16 (n : Nat) : String :=
+  String.ofList ((List.range 16).reverse.map fun i => Askar.Bytes.hexDigit (n / 16 ^ i % 16))
+
+/-- values longer than 512 bytes are compared by length and FNV-1a-64 digest -/
+def jvalue (b : Askar.Bytes) : Json :=
+  if b.length ≤ 512 then jhex b
+  else
+    let h := b.foldl (fun (h : Nat) x => ((h ^^^ x.toNat) * 0x100000001b3) % 18446744073709551616) 0xcbf29ce484222325
+    .str ("len:" ++ toString b.length ++ ":fnv:" ++ hex16 h)
+
+/-- value spec: hex string, or {"fill","len","salt"} = bytes (fill + i*salt) mod 256 -/
+def value! (j : Json) (k : String) : Askar.Bytes :=
+  match j.getObjVal? k with
+  | .ok (.str s) => (Askar.Bytes.ofHex s).getD []
+  | .ok v =>
+    let fill := nat! v "fill"; let salt := nat! v "salt"; let len := nat! v "len"
+    (List.range len).map fun i => UInt8.ofNat ((fill + i * salt) % 256)
+  | _ => []
+
 def jerr (name : String) : Json := Json.mkObj [("err", .str name)]
 
 def jnat (n : Nat) : Json := .num (JsonNumber.fromNat n)
